@@ -377,6 +377,68 @@ fn shard(ctx: &mut ShardCtx, mode: &'static str, quick: u64, thorough: u64) {
         });
         ctx.search("history", strat, n / 16 + 1, &run);
     }
+    if mode == "c11" && !ctx.excluded("payload.overflow_cell_single_leaf") {
+        // few big rows: a table that never holds more than three rows (one leaf, no split: the open findings about
+        // big cells need splits), each with an overflow chain of 2-5 pages; rows are deleted and vacuumed away so that
+        // later chains are built from recycled pages in any order; then the table is dropped and another table
+        // drains the free list. The page audit runs after every step.
+        let excluded: Vec<String> = ctx.excludes.keys().cloned().collect();
+        let big = || prop_oneof![4500u16..6000, 6000u16..9000, 9000u16..14000, 14000u16..20000];
+        let strat = (
+            prop_oneof![3 => Just(4096u32), 1 => Just(8192u32)],
+            prop::collection::vec(big(), 2..4),
+            prop::collection::vec((any::<u8>(), big(), any::<bool>()), 1..4),
+            any::<bool>(),
+            0u8..3,
+            prop::collection::vec(big(), 1..6),
+        )
+            .prop_map(move |(page_size, first, rounds, flush_before_drop, after_drop, refill)| {
+                let row = |k: u8, n: u16| vec![AVal::Pool(k), AVal::Big(n), AVal::Pool(0), AVal::Pool(0), AVal::Pool(0)];
+                let ins = |t: u16, k: u8, n: u16| Step::Auto(AStmt::Insert { t, rows: vec![row(k, n)], partial: false });
+                let create = |name: u8| Step::Auto(AStmt::Create { name, cols: vec![ACol { ty: 0, not_null: false, default: None }, ACol { ty: 3, not_null: false, default: None }], pk: None, uniq: None });
+                let mut steps = vec![create(0)];
+                let mut live: Vec<u8> = vec![];
+                let mut next_key = 0u8;
+                for n in first {
+                    steps.push(ins(0, next_key, n));
+                    live.push(next_key);
+                    next_key += 1;
+                }
+                for (pick, n, two) in rounds {
+                    // make room (physically: delete + vacuum), then write a new chain from the recycled pages
+                    let victims = if two && live.len() >= 2 { 2 } else { 1 };
+                    for _ in 0..victims {
+                        if live.is_empty() {
+                            break;
+                        }
+                        let k = live.remove(pick as usize % live.len());
+                        steps.push(Step::Auto(AStmt::Delete { t: 0, pred: APred::Cmp { col: 0, op: 0, val: AVal::Pool(k) } }));
+                        steps.push(Step::Vacuum);
+                    }
+                    if next_key < 6 && live.len() < 3 {
+                        steps.push(ins(0, next_key, n));
+                        live.push(next_key);
+                        next_key += 1;
+                    }
+                }
+                if flush_before_drop {
+                    steps.push(Step::Flush);
+                }
+                steps.push(Step::Auto(AStmt::Drop { t: 0 }));
+                match after_drop {
+                    1 => steps.push(Step::Vacuum),
+                    2 => steps.push(Step::Reopen(0)),
+                    _ => {}
+                }
+                steps.push(create(1));
+                for (i, n) in refill.into_iter().enumerate().take(3) {
+                    steps.push(ins(0, i as u8, n));
+                }
+                let cfg = Cfg { page_size, ..Cfg::default() };
+                HCase { mode: "c11".into(), cfg, reopen_cfgs: vec![cfg], steps, excluded: excluded.clone(), quiet: false }
+            });
+        ctx.search("history", strat, n / 8 + 1, &run);
+    }
     if mode == "c07" {
         // key reuse: a transaction (session or batch) removes the owner of a unique key (DELETE, or UPDATE of the
         // key column away) and writes the key again (INSERT, or UPDATE of another row onto it), ends either way,
